@@ -162,6 +162,33 @@ def gen(ctx, deep):
         cfg = ec.Config("dom", adapter=True, watcher=None, initial={"p": rng.sample(PD, rng.randint(1, 4)), "g": rng.sample(GD, rng.randint(1, 6)), "g2": []})
         cfg.tag = {"depth_ok": True}
         jobs.append((cfg, [("remove", "p", ["nobody", "d1", "x", "y"])]))
+    # domain policies reached through a management history: the same (user, role) pair held in both domains and revoked
+    # in one; a rule arriving twice in one batch and then revoked; batch / filtered revocations; revoked and granted again
+    for _ in range(120 if not deep else 1500):
+        g = rng.sample(GD, rng.randint(2, 6))
+        e = rng.choice(g)
+        twin = [e[0], e[1], "d2" if e[2] == "d1" else "d1"]
+        if twin not in g and rng.random() < 0.6:
+            g.append(twin)
+        x = rng.choice([r for r in GD if r not in g])
+        cfg = ec.Config("dom", adapter=True, watcher=None, initial={"p": rng.sample(PD, rng.randint(1, 4)), "g": g, "g2": []})
+        cfg.tag = {"depth_ok": True}
+        ask = ("remove", "p", ["nobody", "d1", "x", "y"])  # a no-op: the questions are asked after every call
+        jobs.append((cfg, rng.choice([
+            [ask, ("remove", "g", e)],
+            [ask, ("remove", "g", e), ("add", "g", e)],
+            [ask, ("addmany", "g", [x, x]), ("remove", "g", x)],
+            [ask, ("addmany", "g", [x, x]), ("remove", "g", x)],
+            [ask, ("removemany", "g", [e])],
+            [ask, ("removefiltered", "g", 2, [e[2]])],
+            [ask, ("delete_roles_for_user_in_domain", e[0], e[1], e[2])],
+        ])))
+    for p, g in rng.sample(detour, min(len(detour), 100 if not deep else 1000)):
+        cfg = ec.Config("rbac", adapter=True, watcher=None, initial={"p": p, "g": g, "g2": []})
+        cfg.tag = {"depth_ok": True}
+        e = rng.choice(g)
+        other = rng.choice([x for x in GU if x not in g] or [e])
+        jobs.append((cfg, rng.choice([[("addmany", "g", [other, other]), ("remove", "g", other)], [("remove", "g", e)], [("add", "g", other + ["x"]), ("add", "g", other + ["y"]), ("remove", "g", other + ["x"])]])))
     return jobs
 
 
